@@ -222,6 +222,69 @@ def run(ctx):
     else:
         ctx.notes.append('driver unavailable: correspondence skipped, oracle only')
     real_lm_oracle(ctx, rng)
+    colliding_alphabet_oracle(ctx, rng)
+
+
+def colliding_alphabet_oracle(ctx, rng):
+    """A legal alphabet in which different symbol sequences render to the same text (symbols 'a', 'b', 'ab', joined without a
+    separator): the returned LM state must still be the state of the hypothesis that maximises vis + scale*LM, not of another
+    hypothesis that merely READS the same."""
+    from pero_ocr.decoding.decoders import CTCPrefixLogRawNumpyDecoder, BLANK_SYMBOL
+    render = ['a', 'b', 'ab']
+    letters = render + [BLANK_SYMBOL]
+
+    def sequences(text):
+        if text == '':
+            return [()]
+        out = []
+        for i, r in enumerate(render):
+            if text.startswith(r):
+                out += [(i,) + rest for rest in sequences(text[len(r):])]
+        return out
+    for it in range(150 if ctx.quick() else 1500):
+        rows = pb.gen_matrix(rng, C=4)
+        if pb.near_threshold(rows):
+            continue
+        k = rng.choice([2, 3, 5, 100])
+        num, den = rng.choice([(1, 2), (1, 1), (2, 1)])
+        scale = num / den
+        bonus = rng.choice([F(1), F(3, 2)])
+        toy = pb.gen_toy(rng, 3)
+        h0 = rng.randrange(toy.m) if rng.random() < 0.5 else None
+        start = 0 if h0 is None else h0
+        dec = CTCPrefixLogRawNumpyDecoder(letters, k, lm=toy, lm_scale=scale, insertion_bonus=math.log(bonus))
+        inp = dict(alphabet=render, weights=rows, k=k, scale=[num, den], bonus=str(bonus), h0=h0,
+                   lm=dict(m=toy.m, table=[str(x) for x in toy.table], eos=[str(x) for x in toy.eos]))
+        ctx.evaluations += 1
+        try:
+            bag, h_ret = dec(pb.to_logits(rows), return_h=True, init_h=None if h0 is None else np.array([h0], dtype=np.int64))
+        except Exception as e:
+            ctx.violation('raises:' + type(e).__name__, 'decoder with LM raised %r' % (e,), inp)
+            continue
+        # identify the symbol sequence of every hypothesis by its LM score (the LM scores of different sequences differ)
+        cands = []
+        ok = True
+        for h in bag:
+            seqs = [s for s in sequences(h.transcript) if close(math.exp(h.lm_sc), float(toy.score(start, s, bonus)[0]), 1e-7)]
+            if len(seqs) != 1:
+                ok = False
+                break
+            cands.append((seqs[0], float(h.vis_sc) + scale * float(h.lm_sc)))
+        if not ok or not cands:
+            ctx.count('colliding:unidentified')
+            continue
+        order = sorted(range(len(cands)), key=lambda i: -cands[i][1])
+        if len(order) > 1 and abs(cands[order[0]][1] - cands[order[1]][1]) < 1e-6:
+            continue
+        exp_state = toy.score(start, cands[order[0]][0], bonus)[1]
+        texts = [h.transcript for h in bag]
+        if len(set(texts)) < len(texts):
+            ctx.count('colliding:same-text-twice')
+            ctx.nontriv(inp)
+        if int(h_ret[0]) != exp_state:
+            ctx.violation('returned-state:colliding-alphabet', 'returned LM state is not the state of the hypothesis maximising vis + scale*LM '
+                          '(two hypotheses read the same text)', inp, int(h_ret[0]), exp_state)
+        ctx.count('colliding_alphabet_cases')
 
 
 def real_lm_oracle(ctx, rng):
